@@ -1027,7 +1027,7 @@ fn hammer(threads: usize, millis: u64, seed: u64) -> Value {
         }
     }
     json!({"mode": "stress", "threads": threads, "searches": total, "mismatches": mismatches, "panics": panics,
-           "interleaving": format!("hammer{}x{}ms:{:?}+fresh{}", threads, millis, per_fn, fresh_rounds), "inputs_mutated": []})
+           "interleaving": format!("hammer{}x{}ms+fresh{}", threads, millis, fresh_rounds), "per_function": per_fn, "fresh_runtime_rounds": fresh_rounds, "inputs_mutated": []})
 }
 
 fn main() {
